@@ -120,6 +120,10 @@ def gen_cases(r, tier):
         add('rule x { strings: $a = %s condition: $a }' % x, "re-subparser")
         add('rule x { condition: "abc" matches %s }' % x, "re-subparser")
         add('rule x { strings: $a = %s wide nocase fullword condition: for any i in (1..#a) : ( @a[i] > 0 ) }' % x, "re-subparser")
+    for e in ['- /a/ < 0', '1 >> /a/ == 2', '/a/ + 1 == 2', '~ /a/ == 0', '1 \\ /a/ == 1', '/a/ % 2 == 0', '1.5 * /a/ > 0', '"s" contains /a/', '/a/ contains "s"',
+              'uint8(/a/) == 0', 'for any i in (/a/..2) : ( i == 1 )', '/a/ of them', 'not /a/', '/a/ and true', '/a/ matches /b/', '/a/ == /a/', 'filesize > /a/',
+              'pe == 1', 'pe.sections == 1', 'pe.sections + 1 == 2', '- pe.version_info == 0', 'pe.is_dll + 1 == 1']:
+        add('import "pe" rule t { strings: $a = "a" condition: %s }' % e, "wrong-type-operand")
     # oversized tokens around YR_LEX_BUF_SIZE (8192) and far beyond
     L = 8192
     for n in [L - 3, L - 2, L - 1, L, L + 1, L + 2, 2 * L, 70000] + ([] if quick else [1 << 20]):
@@ -229,7 +233,7 @@ def protocol_problem(fields):
     if errs != cb:
         return "ret_eq_errors: return value %d != %d error callbacks" % (errs, cb)
     if fields["msgok"] != "1":
-        return "an error callback had an empty message"
+        return "EMPTY-MESSAGE an error callback had an empty message (last error %s)" % fields.get("lasterr")
     if fields["follow"] != "ok":
         return "follow-up compile+scan in the same process: %s" % fields["follow"]
     if errs == 0 and fields["rules"] != "1":
@@ -273,6 +277,14 @@ def run(tier, replay=None):
         found = True
     byid = {c.split(" ", 1)[0]: c for c in cases}
     hist, kinds, outcomes = collections.Counter(), collections.Counter(), collections.Counter()
+    # every crash / leak / timeout is re-run once alone (no parallel load, generous timeout): compilation is deterministic, so a genuine failure
+    # reproduces; a time-out or a LeakSanitizer tracer hiccup caused by machine load does not and is only counted
+    bad = [l.split(" ", 1)[0] for l in out if " ok " not in l[:14]]
+    if bad and len(bad) <= 60 and not replay:
+        rout, rrc, rerr = core.run_lines([b["h_compile"], "120"], [byid[c] for c in bad if c in byid], timeout=3000)
+        redo = {l.split(" ", 1)[0]: l for l in rout}
+        out = [redo.get(l.split(" ", 1)[0], l) if " ok " not in l[:14] else l for l in out]
+        outcomes["not_reproduced_when_rerun_alone"] = sum(1 for c in bad if " ok " in redo.get(c, "")[:14])
     sigs = collections.defaultdict(list)
     nontrivial = set()
     nprob = 0
@@ -292,6 +304,14 @@ def run(tier, replay=None):
             if f["lineok"] != "1":
                 line0.append((cid, l))
             p = protocol_problem(f)
+            if p and p.startswith("EMPTY-MESSAGE"):
+                kf = [x for x in known if x["signature"].get("empty_message") and x["signature"].get("last_error") == f.get("lasterr")]
+                if kf:
+                    outcomes["empty_message_wrong_type"] += 1
+                    if not any(k[0] is kf[0] for k in chk.known_hit):
+                        chk.known(kf[0], "%s error callback with an empty message for %s, e.g. `%s`" %
+                                  (kf[0]["id"], f.get("lasterr"), bytes.fromhex(byid[cid].split(" ")[2].replace("-", ""))[:160].decode("latin1")))
+                    p = None
             if p and nprob < 10:
                 nprob += 1
                 chk.violation("protocol_%d.json" % nprob, {"kind": "error-protocol-violation", "engine": "compile", "harness": "h_compile", "case": byid[cid],
